@@ -99,6 +99,41 @@ fn run_case_inner(op: &str, inp: &Value) -> String {
             let (h, _, _, zs) = k.verif_state();
             format!("(c_exp_hc {} {} {} {} {} {})", cfl(f(&inp["tol"])), s3(&h), v3(&zs), v3(&ds), v3(&v), v3(&eta))
         }
+        // third-order correction at z and at (lam z, ds/lam, lam v), lam = 2^k
+        "hc_cov" => {
+            let is_exp = inp["cone"].as_str().unwrap() == "exp";
+            let al = f(&inp["alpha"]);
+            let (z, ds, v) = (fv(&inp["z"]), fv(&inp["ds"]), fv(&inp["v"]));
+            let lam = (2.0f64).powi(inp["k"].as_i64().unwrap() as i32);
+            let tol = f(&inp["tol"]);
+            let z2: Vec<f64> = z.iter().map(|x| x * lam).collect();
+            let ds2: Vec<f64> = ds.iter().map(|x| x / lam).collect();
+            let v2: Vec<f64> = v.iter().map(|x| x * lam).collect();
+            let run = |z: &[f64], ds: &[f64], v: &[f64]| -> ([f64; 6], [f64; 3], [f64; 3]) {
+                let mut eta = [0.0; 3];
+                if is_exp {
+                    let mut k = ExponentialCone::<f64>::new();
+                    k.update_scaling(z, z, 1.0, ScalingStrategy::Dual);
+                    k.verif_higher_correction(&mut eta, ds, v);
+                    let (h, _, _, zs) = k.verif_state();
+                    (h, zs, eta)
+                } else {
+                    let mut k = PowerCone::<f64>::new(al);
+                    k.update_scaling(z, z, 1.0, ScalingStrategy::Dual);
+                    k.verif_higher_correction(&mut eta, ds, v);
+                    let (h, _, _, zs) = k.verif_state();
+                    (h, zs, eta)
+                }
+            };
+            let (_h1, _z1, eta1) = run(&z, &ds, &v);
+            let (h2, zs2, eta2) = run(&z2, &ds2, &v2);
+            let inner = if is_exp {
+                format!("c_exp_hc {} {} {} {} {} {}", cfl(tol), s3(&h2), v3(&zs2), v3(&ds2), v3(&v2), v3(&eta2))
+            } else {
+                format!("c_pow_hc {} {} {} {} {} {} {}", cfl(tol), cfl(al), s3(&h2), v3(&zs2), v3(&ds2), v3(&v2), v3(&eta2))
+            };
+            format!("(N.max ({}) (c_hc_cov {} {} {} {} {} {} {}))", inner, cfl(tol), cfl(lam), s3(&h2), v3(&ds2), v3(&v2), v3(&eta1), v3(&eta2))
+        }
         "exp_gradp" => {
             let s = fv(&inp["s"]);
             note_omega_s(&s);
@@ -409,6 +444,21 @@ fn generate(sink: &mut CaseSink, seed: u64, thorough: bool) -> BTreeMap<String, 
         let rhs = g.dir(3);
         emit(sink, &mut g, "chol", json!({"A": a, "b": rhs}), "chol");
     }
+    // SPD matrices scaled by exact powers of two, tiny positive and non-positive pivots
+    for (i, k) in [10i32, -10, 20, -20, 30, -30, 40, -40, 52, -52, 60, -60].iter().enumerate() {
+        for rep in 0..(2 * scale) {
+            let b: Vec<f64> = (0..9).map(|j| if j % 4 == 0 { 2.0 + g.rng.range(0, 3) as f64 } else { g.rng.range(-2, 2) as f64 * 0.5 }).collect();
+            let e = |i: usize, j: usize| (0..3).map(|t| b[3 * i + t] * b[3 * j + t]).sum::<f64>();
+            let lam = (2.0f64).powi(*k);
+            let a: Vec<f64> = [e(0, 0), e(0, 1), e(1, 1), e(0, 2), e(1, 2), e(2, 2)].iter().map(|x| x * lam).collect();
+            let rhs: Vec<f64> = g.dir(3).iter().map(|x| x * if (i + rep) % 2 == 0 { 1.0 } else { lam }).collect();
+            emit(sink, &mut g, "chol", json!({"A": a, "b": rhs}), "chol-scaled");
+        }
+    }
+    for (d1, d2) in [(1e-20, 1e-30), (1e-30, 1.0), (1.0, 1e-20), (1e-300, 1e-300), (0.0, 1.0), (1.0, 0.0), (-1e-300, 1.0), (1.0, -1e-300)] {
+        emit(sink, &mut g, "chol", json!({"A": [1.0, 0.0, d1, 0.0, 0.0, d2], "b": [1.0, 1.0, 1.0]}), "chol-pivot");
+        emit(sink, &mut g, "chol", json!({"A": [4.0, 2.0, 1.0 + d1, 0.0, 0.0, d2], "b": [1.0, -1.0, 0.5]}), "chol-pivot");
+    }
     // --- feasibility predicates
     // exact boundary points (strict inequalities) and sign patterns
     for (s, z) in [([0.0, 1.0, 1.0], [-1.0, -1.0, 1.0]), ([0.0, 2.0, 2.0], [-2.0, -2.0, 2.0]), ([0.0, 0.5, 0.5], [-0.5, -0.5, 0.5]),
@@ -455,6 +505,19 @@ fn generate(sink: &mut CaseSink, seed: u64, thorough: bool) -> BTreeMap<String, 
         let ds: Vec<f64> = g.dir(3).iter().map(|x| x * sc_s).collect();
         let v: Vec<f64> = g.dir(3).iter().zip(&z).map(|(x, zi)| x * sc_v * zi.abs().max(1e-3)).collect();
         emit(sink, &mut g, "pow_hc", json!({"alpha": al, "z": z, "ds": ds, "v": v, "tol": tol_for(m) * 10.0}), "hc");
+    }
+    // third-order correction at dual points scaled by 2^k: eta -> eta / lam, never the zero vector
+    for (i, k) in [10i64, -10, 20, -20, 26, -26, 30, -30, 34, -34, 40, -40].iter().enumerate() {
+        for rep in 0..(2 * scale) {
+            let is_exp = (i + rep) % 2 == 0;
+            let al = g.alpha();
+            let m = g.logu(0.05, 0.9);
+            let z: Vec<f64> = if is_exp { let (a, b) = (g.logu(0.3, 3.0), g.logu(0.3, 3.0)); let l = (b / a).ln(); vec![-a, -a - a * l + m * a * (1.0 + l.abs()), b] }
+                              else { let (a, b) = (g.logu(0.3, 3.0), g.logu(0.3, 3.0)); let bd = (a / al).powf(al) * (b / (1.0 - al)).powf(1.0 - al); vec![a, b, bd * (1.0 - m) * if g.rng.chance(1, 2) { 1.0 } else { -1.0 }] };
+            let ds = g.dir(3);
+            let v: Vec<f64> = g.dir(3).iter().zip(&z).map(|(x, zi)| x * zi.abs().max(1e-3)).collect();
+            emit(sink, &mut g, "hc_cov", json!({"cone": if is_exp { "exp" } else { "pow" }, "alpha": al, "z": z, "ds": ds, "v": v, "k": k, "tol": 1e-7}), "hc-scaled");
+        }
     }
     // --- primal gradient (conjugacy), Wright omega
     for _ in 0..(60 * scale) {
